@@ -180,8 +180,8 @@ fn run_exhaustive(ctx: &mut Ctx) {
     let bufs = model::exhaustive_buffers(&mut r);
     let per = model::exhaustive_count();
     let total = per * bufs.len() as u64 * 2;
-    // Miri: a thin slice only (about 60 histories per shard)
-    let mut stride = if ctx.profile == Profile::Miri { (total / (60 * ctx.nshards)).max(1) | 1 } else { 1 };
+    // Miri: a thin slice only (about 40 histories per shard)
+    let mut stride = if ctx.profile == Profile::Miri { (total / (40 * ctx.nshards)).max(1) | 1 } else { 1 };
     while stride > 1 && gcd(stride, ctx.nshards) != 1 {
         stride += 2;
     }
@@ -191,7 +191,8 @@ fn run_exhaustive(ctx: &mut Ctx) {
             let b = (i / per) % bufs.len() as u64;
             let le = i / (per * bufs.len() as u64) == 0;
             let h = model::gen_exhaustive(i % per, bufs[b as usize].clone(), le);
-            check_history(ctx, "exh", &h, true);
+            let full = ctx.profile != Profile::Miri;
+            check_history(ctx, "exh", &h, full);
             ctx.obs("exh.histories");
         }
         i += stride;
@@ -201,7 +202,7 @@ fn run_exhaustive(ctx: &mut Ctx) {
 fn run_random(ctx: &mut Ctx) {
     let n = match ctx.profile {
         // "a few hundred histories per shard"
-        Profile::Miri => (if ctx.quick() { 200 } else { 400 }) * ctx.nshards,
+        Profile::Miri => (if ctx.quick() { 60 } else { 300 }) * ctx.nshards,
         _ => ctx.size(160_000, 1_600_000, 8),
     };
     for i in 0..n {
@@ -209,8 +210,11 @@ fn run_random(ctx: &mut Ctx) {
             continue;
         }
         let mut r = ctx.rng("hist", i);
-        let h = model::gen_random(&mut r, 60);
-        let full = h.buf.len() <= 64;
+        // Miri is ~10^4 times slower: shorter histories, 4 KiB buffers cut to 256 bytes,
+        // only the readers a step touched are re-observed
+        let miri = ctx.profile == Profile::Miri;
+        let h = if miri { model::gen_random(&mut r, 30, 256) } else { model::gen_random(&mut r, 60, usize::MAX) };
+        let full = h.buf.len() <= 64 && !miri;
         check_history(ctx, "hist", &h, full);
         ctx.obs("hist.histories");
     }
